@@ -94,7 +94,7 @@ def pre_elem_attributes_kind(facts, reach):
     """XmlElement.attributes only receives items built by XmlAttribute::node (push_attribute) or
     converted from an XmlAttr handle (append_attribute <- set_attribute_node)."""
     callers = e6.callers_of(facts, lambda n: n in ("xml_info::XmlElement::push_attribute", "xml_info::XmlElement::append_attribute"))
-    allowed = {"xml_info::XmlElement::node", "xml_dom::<XmlElement as ElementMut>::set_attribute_node"}
+    allowed = {g["path"] for g in facts.family("xml_info::XmlElement::node")} | {"xml_dom::<XmlElement as ElementMut>::set_attribute_node"}
     bad = sorted({c["path"] for c, e in callers} - allowed)
     if bad:
         return False, "attributes vector is also fed by %s" % bad
